@@ -516,6 +516,10 @@ pub struct RunCfg<'a> {
     pub max_steps: usize,
     /// raw stdin lines for INT 21h services (None = those services are not used)
     pub input_lines: Option<&'a [Vec<u8>]>,
+    /// for INT 21h AH=0Ah, per call: the stored count to assume and the byte found right after the
+    /// stored characters (validity-predicate style: the caller has checked them against the
+    /// documented bounds); None = count is min(line length, capacity), nothing after it
+    pub buf_fill: Option<&'a [(usize, Option<u8>)]>,
 }
 
 /// The reference interpreter for whole programs.
@@ -530,6 +534,7 @@ pub fn ref_run(flat: &Flat, image: &[u8], cfg: &RunCfg, q: &Quirks) -> RefRun {
     let mut prompts_before = Vec::new();
     let mut script_pos = 0usize;
     let mut input_pos = 0usize;
+    let mut buf_calls = 0usize;
     let start = match flat.labels.get("start") {
         Some(s) => *s,
         None => {
@@ -673,8 +678,24 @@ pub fn ref_run(flat: &Flat, image: &[u8], cfg: &RunCfg, q: &Quirks) -> RefRun {
                                 mach.regs.r[AX] = (mach.regs.r[AX] & 0xFF00) | b as u16;
                             }
                             0x0A => {
-                                // modelled by the C18 check's own validity predicate; here: consume a line
+                                let line: Vec<u8> = cfg.input_lines.and_then(|l| l.get(input_pos).cloned()).unwrap_or_default();
                                 input_pos += 1;
+                                let start = phys(mach.regs.r[DS], mach.regs.r[DX]);
+                                let cap = mach.mem.rd(start) as usize;
+                                let (count, term) = match cfg.buf_fill.and_then(|b| b.get(buf_calls)) {
+                                    Some((c, t)) => (*c, *t),
+                                    None => (line.len().min(cap), None),
+                                };
+                                buf_calls += 1;
+                                mach.mem.wr(start.wrapping_add(1), count as u8);
+                                for k in 0..count.min(line.len()) {
+                                    mach.mem.wr(start.wrapping_add(2 + k as u32), line[k]);
+                                }
+                                if let Some(t) = term {
+                                    if count < cap {
+                                        mach.mem.wr(start.wrapping_add(2 + count as u32), t);
+                                    }
+                                }
                             }
                             _ => {
                                 events.push(Ev::UnsupInt(line_of(idx)));
@@ -732,11 +753,31 @@ pub fn tokenize(out: &[u8]) -> Result<Vec<Ev>, String> {
     let parse_num = |t: &str| -> usize { t.trim().split(|c: char| !c.is_ascii_digit()).next().unwrap_or("").parse::<usize>().unwrap_or(0) };
     while i < b.len() {
         let r = &s[i..];
-        if MARKERS.contains(&b[i]) || b[i] == b' ' && false {
-            let mut v = Vec::new();
-            while i < b.len() && MARKERS.contains(&b[i]) {
-                v.push(b[i]);
-                i += 1;
+        let out_char_at = |k: usize| -> Option<(u8, usize)> {
+            if k >= b.len() {
+                None
+            } else if MARKERS.contains(&b[k]) {
+                Some((b[k], 1))
+            } else if (b[k] == 0xC2 || b[k] == 0xC3) && k + 1 < b.len() && b[k + 1] & 0xC0 == 0x80 {
+                // U+0080..U+00FF: how Rust prints a byte >= 80h converted to char
+                Some((((b[k] & 0x03) << 6) | (b[k + 1] & 0x3F), 2))
+            } else {
+                None
+            }
+        };
+        let blanks = {
+            let mut k = i;
+            while k < b.len() && b[k] == b' ' {
+                k += 1;
+            }
+            k - i
+        };
+        if out_char_at(i).is_some() || (blanks > 0 && out_char_at(i + blanks).is_some()) {
+            let mut v = vec![b' '; blanks];
+            i += blanks;
+            while let Some((c, n)) = out_char_at(i) {
+                v.push(c);
+                i += n;
             }
             evs.push(Ev::Chars(v));
         } else if r.starts_with(">>> ") {
